@@ -323,11 +323,11 @@ macro_rules! linger_step {
         }
     };
 }
-// @verif tier=quick unwind=4 unwindset=swap_nonoverlapping_chunks:8 timeout=1200
+// @verif tier=thorough unwind=4 unwindset=swap_nonoverlapping_chunks:8 timeout=2400 mem=24
 linger_step!(c12_linger_step_unreferenced_stamped, false, true);
-// @verif tier=quick unwind=4 unwindset=swap_nonoverlapping_chunks:8
+// @verif tier=off unwind=4 unwindset=swap_nonoverlapping_chunks:8
 linger_step!(c12_linger_step_unreferenced_unstamped, false, false);
-// @verif tier=quick unwind=4 unwindset=swap_nonoverlapping_chunks:8
+// @verif tier=off unwind=4 unwindset=swap_nonoverlapping_chunks:8
 linger_step!(c12_linger_step_in_use, true, true);
 
 /// Lingering image lists: a retired image vector is kept for at least the linger period after it was retired.
